@@ -117,8 +117,20 @@ Fixpoint chk_pongs (p : proto) (pending : nat) (t : list ev) : bool :=
   end.
 
 (** ** R5 *)
-Definition result_class (d : doc) (n : nat) : dclass :=
-  match d with DQuery | DMutation => CRes n | _ => CErr end.
+(** Had closing begun (beginClosing: the handler's context is cancelled) when operation n was started?
+    An operation executed with a cancelled context is executed (Config.Execute is called) but its
+    resolvers do not run: its result carries errors only. *)
+Definition is_begin (e : ev) : bool := match e with VBeginClose _ => true | _ => false end.
+Fixpoint begun_before (n : nat) (t : list ev) : bool :=
+  match t with
+  | [] => false
+  | VBeginClose _ :: _ => true
+  | VStart m _ _ :: t' => if Nat.eqb m n then false else begun_before n t'
+  | _ :: t' => begun_before n t'
+  end.
+Definition exec_class (n : nat) (t : list ev) : dclass := if begun_before n t then CErr else CRes n.
+Definition result_class (t : list ev) (d : doc) (n : nat) : dclass :=
+  match d with DQuery | DMutation => exec_class n t | _ => CErr end.
 
 Inductive tri := Must | May | MustNot.
 
@@ -153,7 +165,7 @@ Definition chk_op (t : list ev) (e : ev) : bool :=
       match d with
       | DQuery | DMutation =>
           Nat.eqb (count (is_exec n) t) 1 && Nat.eqb (count (is_subscribe n) t) 0 &&
-          Nat.eqb (count (is_subfail n) t) 0 && answered n id (CRes n) t
+          Nat.eqb (count (is_subfail n) t) 0 && answered n id (exec_class n t) t
       | DInvalid =>
           Nat.eqb (count (is_exec n) t) 0 && Nat.eqb (count (is_subscribe n) t) 0 &&
           Nat.eqb (count (is_subfail n) t) 0 && answered n id CErr t
@@ -232,8 +244,7 @@ Definition chk_op_soft (t : list ev) (e : ev) : bool :=
       | DQuery | DMutation =>
           Nat.eqb (count (is_exec n) t) 1 && Nat.eqb (count (is_subscribe n) t) 0 &&
           Nat.eqb (count (is_subfail n) t) 0 &&
-          (* executed exactly once; its context may already be cancelled: then the result carries errors only *)
-          (prefixb (owned n t) [SData id (CRes n); SComplete id] || prefixb (owned n t) [SData id CErr; SComplete id])
+          prefixb (owned n t) [SData id (exec_class n t); SComplete id]
       | DInvalid =>
           Nat.eqb (count (is_exec n) t) 0 && Nat.eqb (count (is_subscribe n) t) 0 &&
           Nat.eqb (count (is_subfail n) t) 0 && prefixb (owned n t) [SData id CErr; SComplete id]
